@@ -100,41 +100,35 @@ theorem export_node_data_is_evaluation (so : List Nat → List Nat) (ext : Strin
         beq_self_eq_true, Bool.and_true, Bool.true_and] at hacc ⊢
       exact hacc)]
 
-/- FULL STATEMENT (false for the unchanged code, see `complex_element_counterexample`): as below without `hreal`,
-   with cell data `("real", [.mat t.re]), ("imag", [.mat t.im])` when `t.isComplex`. -/
-/-- Element data: with `data_type="element"` (the default for all other spaces) and a transformed array of REAL
-dtype, the record handed to meshio is the grid record with the additional cell data `data` = the transformed
-`evaluate_on_element_centers()` array (one block, one row per element) and no point data. -/
-theorem export_element_data_is_evaluation_partial (so : List Nat → List Nat) (ext : String) (f : GridFun)
+/-- Element data: with `data_type="element"` (the default for all other spaces) the record handed to meshio is
+the grid record with additional cell data that is exactly the transformed `evaluate_on_element_centers()` array (one
+block, one row per element): under the name `data` if the transformed array has a real dtype, as its real and
+imaginary parts under `real` / `imag` if it is complex.  No point data is written. -/
+theorem export_element_data_is_evaluation (so : List Nat → List Nat) (ext : String) (f : GridFun)
     (dt : DataType) (tr : Transform) (binary : Bool) (t : TMat)
     (hdt : defaultDataType dt (some f) = .element) (ht : applyTransform tr f.centerValues = some t)
-    (hreal : t.isComplex = false)
-    (hre : t.re.length = f.grid.elements.length)
+    (hre : t.re.length = f.grid.elements.length) (him : t.im.length = f.grid.elements.length)
     (hlen : f.grid.domain.length = f.grid.elements.length) :
     «export» so ext none (some f) dt tr binary =
       .ok { gridRec so ext binary f.grid with
-            cellData := ("data", [.mat t.re]) :: tagFields so (ext == ".msh") f.grid } := by
+            cellData := (if t.isComplex then [("real", [.mat t.re]), ("imag", [.mat t.im])]
+                         else [("data", [.mat t.re])]) ++ tagFields so (ext == ".msh") f.grid } := by
   have hacc := accepted_grid_only so (ext == ".msh") f.grid
     (if (ext == ".msh") = true then some "gmsh22" else none) binary hlen
-  simp only [«export», hdt, dataFields, ht, hreal, Bool.false_eq_true, if_false, assemble, gridRec]
-  rw [if_pos]
-  · rfl
-  · simp only [MeshRec.accepted, List.all_cons, List.all_nil, Block.len, List.length_map, hre, List.nil_append,
-      List.cons_append, List.length_cons, List.length_nil, List.zip_cons_cons, List.zip_nil_right,
-      beq_self_eq_true, Bool.and_true, Bool.true_and] at hacc ⊢
-    exact hacc
-
-/-- The defect, for every grid function: complex element data (complex coefficients, no transformation or a
-complex-valued callable) on a grid with more than one element is never written — meshio rejects the record
-because the `real` / `imag` arrays are not wrapped into a one-block list like the real `data` array is. -/
-theorem complex_element_data_rejected (so : List Nat → List Nat) (ext : String) (f : GridFun) (dt : DataType)
-    (tr : Transform) (binary : Bool) (t : TMat)
-    (hdt : defaultDataType dt (some f) = .element) (ht : applyTransform tr f.centerValues = some t)
-    (hcomplex : t.isComplex = true) (hne : t.re.length ≠ 1) :
-    «export» so ext none (some f) dt tr binary = .error .meshRejected := by
-  simp only [«export», hdt, dataFields, ht, hcomplex, if_true, assemble]
-  rw [if_neg]
-  simp [MeshRec.accepted, hne]
+  simp only [«export», hdt, dataFields, ht]
+  cases hc : t.isComplex
+  · simp only [assemble, gridRec, Bool.false_eq_true, if_false]
+    rw [if_pos (by
+      simp only [MeshRec.accepted, List.all_cons, List.all_nil, Block.len, List.length_map, hre, List.nil_append,
+        List.cons_append, List.length_cons, List.length_nil, List.zip_cons_cons, List.zip_nil_right,
+        beq_self_eq_true, Bool.and_true, Bool.true_and] at hacc ⊢
+      exact hacc)]
+  · simp only [assemble, gridRec, if_true]
+    rw [if_pos (by
+      simp only [MeshRec.accepted, List.all_cons, List.all_nil, Block.len, List.length_map, hre, him,
+        List.nil_append, List.cons_append, List.length_cons, List.length_nil, List.zip_cons_cons,
+        List.zip_nil_right, beq_self_eq_true, Bool.and_true, Bool.true_and] at hacc ⊢
+      exact hacc)]
 
 /-- two triangles, a complex DP0 function with coefficients `1+2i`, `3+4i` -/
 def complexDP0 : GridFun :=
@@ -144,13 +138,13 @@ def complexDP0 : GridFun :=
     vertexValues := ⟨true, [[(1, 2)], [(2, 3)], [(2, 3)], [(3, 4)]]⟩
     centerValues := ⟨true, [[(1, 2)], [(3, 4)]]⟩ }
 
-/-- Concrete witness (replayed on the real code by the oracle, key `export-complex-element-data`): exporting the
-element data of `complexDP0` fails, while its real part alone is exported as the centre values. -/
-theorem complex_element_counterexample :
-    «export» List.eraseDups ".msh" none (some complexDP0) .unset .none true = .error .meshRejected ∧
-    ∃ m, «export» List.eraseDups ".msh" none (some complexDP0) .unset .real true = .ok m ∧
-      m.cellData.lookup "data" = some [.mat [[.rat 1], [.rat 3]]] :=
-  ⟨by decide +kernel, _, rfl, by decide +kernel⟩
+/-- Regression witness for the repaired defect `export-complex-element-data` (replayed on the real code by the
+oracle): the element data of `complexDP0` IS exported, as the real and imaginary parts of the centre values. -/
+theorem complex_element_data_exported :
+    ∃ m, «export» List.eraseDups ".msh" none (some complexDP0) .unset .none true = .ok m ∧
+      m.cellData.lookup "real" = some [.mat [[.rat 1], [.rat 3]]] ∧
+      m.cellData.lookup "imag" = some [.mat [[.rat 2], [.rat 4]]] :=
+  ⟨_, rfl, by decide +kernel, by decide +kernel⟩
 
 /-! ### transformations, defaults, import logic -/
 
